@@ -109,6 +109,7 @@ type PosArg struct {
 	T     TypeSpec
 	Base  int    // base tag on an integer positional (0 = none)
 	Req   string // required tag text on the field ("" none, "yes", "2", "1-3")
+	ReqViaAPI bool // the counts are not declared by tag but assigned through Command.Args()[i].Required / RequiredMaximum
 	Desc  string
 	// PtrSlice: a positional declared as *[]string: NOT a list - it takes exactly one token (stored as a
 	// one-element slice behind the pointer) and then gives way to the next positional
@@ -367,7 +368,7 @@ func (a *PosArg) Tag() string {
 	if a.Name != "" {
 		tagKV(&sb, "positional-arg-name", a.Name)
 	}
-	if a.Req != "" {
+	if a.Req != "" && !a.ReqViaAPI {
 		tagKV(&sb, "required", a.Req)
 	}
 	if a.Base != 0 {
@@ -706,6 +707,29 @@ func (d *Decl) Build() *Built {
 // applyProgAttrs sets required / choices / hidden / default-mask through the exported fields of the
 // flags.Option of every option marked Prog (programmatic declaration instead of tags).
 func (d *Decl) applyProgAttrs(b *Built) {
+	for _, cm := range d.Cmds {
+		if cm.Pos == nil || cm.FC == nil {
+			continue
+		}
+		live := cm.FC.Args()
+		for i, a := range cm.Pos.Args {
+			if !a.ReqViaAPI || a.Req == "" || i >= len(live) {
+				continue
+			}
+			// the same reading of the text as the tag gets: "yes" -> 1, "n" -> n, "lo-hi" -> lo..hi
+			req, max := 1, -1
+			rng := strings.SplitN(a.Req, "-", 2)
+			if n, err := strconv.ParseInt(rng[0], 10, 32); err == nil {
+				req = int(n)
+			}
+			if len(rng) > 1 {
+				if n, err := strconv.ParseInt(rng[1], 10, 32); err == nil {
+					max = int(n)
+				}
+			}
+			live[i].Required, live[i].RequiredMaximum = req, max
+		}
+	}
 	for _, o := range d.Opts {
 		if o.ProgChoicesFrom > 0 && !o.Prog && o.Cmd.FC != nil {
 			// the tag-declared choices are extended through the exported Choices field
@@ -1010,7 +1034,11 @@ func (d *Decl) Describe() interface{} {
 				if a.NamedSlice {
 					ts = "StrList (named []string)"
 				}
-				as = append(as, a.Field+" "+ts+" `"+a.Tag()+"`")
+				desc := a.Field + " " + ts + " `" + a.Tag() + "`"
+				if a.ReqViaAPI && a.Req != "" {
+					desc += " required=" + a.Req + " (assigned through Command.Args())"
+				}
+				as = append(as, desc)
 			}
 			m["positional"] = map[string]interface{}{"required": c.Pos.Required, "args": as, "second_struct_from": c.Pos.Split}
 		}
